@@ -47,6 +47,74 @@ func idChecked(x ssa.Instruction, fn *ssa.Function, id *ssa.Parameter) bool {
 		func(v ssa.Value) bool { return core.HasOrigin(v, id) })
 }
 
+// callbackInvocationsOf: the calls through which closure a runs when it is only handed as a callback to virtually
+// inlined helpers (nil otherwise).
+func callbackInvocationsOf(a *ssa.Function) []*ssa.Call {
+	par := a.Parent()
+	if par == nil {
+		return nil
+	}
+	isA := func(v ssa.Value) bool {
+		if v == ssa.Value(a) {
+			return true
+		}
+		mc, ok := v.(*ssa.MakeClosure)
+		return ok && mc.Fn == ssa.Value(a)
+	}
+	var out []*ssa.Call
+	for _, b := range par.Blocks {
+		for _, in := range b.Instrs {
+			if mc, ok := in.(*ssa.MakeClosure); ok && mc.Fn == ssa.Value(a) {
+				continue
+			}
+			uses := false
+			for _, op := range in.Operands(nil) {
+				if op != nil && *op != nil && isA(*op) {
+					uses = true
+				}
+			}
+			if !uses {
+				continue
+			}
+			s, ok := in.(*ssa.Call)
+			if !ok {
+				return nil
+			}
+			h := core.InlinedCallee(s)
+			if h == nil {
+				return nil
+			}
+			found := false
+			for i, arg := range s.Call.Args {
+				if !isA(arg) || i >= len(h.Params) {
+					continue
+				}
+				p := h.Params[i]
+				if p.Referrers() == nil {
+					continue
+				}
+				for _, pr := range *p.Referrers() {
+					switch pc := pr.(type) {
+					case *ssa.Call:
+						if pc.Call.Value != ssa.Value(p) {
+							return nil
+						}
+						out = append(out, pc)
+						found = true
+					case *ssa.DebugRef:
+					default:
+						return nil
+					}
+				}
+			}
+			if !found {
+				return nil
+			}
+		}
+	}
+	return out
+}
+
 func c06(w *core.World, r *core.Report) {
 	types_ := "pkg/datastore/types"
 	confirm := w.Func(types_, "TransactionManager", "Confirm")
@@ -102,6 +170,35 @@ func c06(w *core.World, r *core.Report) {
 			// the transaction unless they test the id themselves
 			var anon func(a *ssa.Function)
 			anon = func(a *ssa.Function) {
+				// a closure that is handed as a callback to a helper which is part of the method (resolve(id, func(trans)
+				// error {...})) runs where the helper calls it: its effects are judged at those calls
+				if invs := callbackInvocationsOf(a); len(invs) > 0 {
+					for _, c := range core.OwnCalls(a) {
+						if !core.CalleeIs(c, effectKeys...) {
+							continue
+						}
+						ok := true
+						for _, pc := range invs {
+							if !idChecked(pc, fn, id) {
+								ok = false
+							}
+						}
+						r.Check(ok, "ID-BEFORE-EFFECT", core.Site(fn, "call %s in a callback", core.CalleeKey(c)), w.InstrPos(c), "the callback that touches the open transaction is invoked at a point the id test does not guard")
+					}
+					for _, st := range core.StoresToField(a, kTMSlot) {
+						ok := true
+						for _, pc := range invs {
+							if !idChecked(pc, fn, id) {
+								ok = false
+							}
+						}
+						r.Check(ok, "ID-BEFORE-EFFECT", core.Site(fn, "store transaction slot in a callback"), w.InstrPos(st), "the callback that clears the open transaction is invoked at a point the id test does not guard")
+					}
+					for _, b := range a.AnonFuncs {
+						anon(b)
+					}
+					return
+				}
 				for _, st := range core.StoresToField(a, kTMSlot) {
 					r.Check(idChecked(st, a, id), "ID-BEFORE-EFFECT", core.Site(fn, "store transaction slot in a closure"), w.InstrPos(st), "a deferred handler / closure of the method clears the open transaction without the id having matched (it also runs on the early return of a mismatch)")
 				}
@@ -239,7 +336,12 @@ func c06(w *core.World, r *core.Report) {
 				}
 				n++
 				// a caller that is an unexported helper inlined into one function counts as that function
-				key := core.HostKey(e.Caller) + " -> " + core.FuncKey(f)
+				// (a closure counts as the function it is written in)
+				caller := e.Caller
+				for caller.Parent() != nil {
+					caller = caller.Parent()
+				}
+				key := core.HostKey(caller) + " -> " + core.FuncKey(f)
 				how, ok := allowed[key]
 				if ok && how == "defer" {
 					_, ok = e.Site.(*ssa.Defer)
